@@ -317,7 +317,34 @@ def _thaw(p):
     return p
 
 
+def termination_probe(case: dict):
+    """read a document in a child process with a time limit (a hang cannot be observed from inside the process)"""
+    import subprocess
+    import sys
+
+    tmp = native.scratch_dir("c05t_")
+    try:
+        (tmp / "root").write_text(case["text"])
+        code = ("import logging,sys\nlogging.disable(logging.CRITICAL)\nfrom dictIO import DictReader\n"
+                "from dictIO.utils.counter import BorgCounter\nBorgCounter.Borg['theCount'] = -1\n"
+                f"d = DictReader.read({str(tmp / 'root')!r})\nprint(repr(dict(d)))\n")
+        try:
+            p = subprocess.run([sys.executable, "-B", "-c", code], capture_output=True, text=True, timeout=case.get("limit", 20), check=False)
+        except subprocess.TimeoutExpired:
+            return ("no-termination", f"DictReader.read did not return within {case.get('limit', 20)} s on {case['text']!r}")
+        if p.returncode != 0:
+            return ("raises", f"read of {case['text']!r} failed: {p.stderr.strip().splitlines()[-1] if p.stderr.strip() else p.returncode}")
+        want = case.get("expect")
+        if want is not None and want not in p.stdout:
+            return ("value", f"read of {case['text']!r} gave {p.stdout.strip()[:300]}, expected it to hold {want}")
+        return None
+    finally:
+        shutil.rmtree(tmp, ignore_errors=True)
+
+
 def oracle(case: dict):
+    if case.get("kind") == "termination":
+        return termination_probe(case)
     dictIO = native.dictio()
     nodes = decode_nodes(case)
     try:
@@ -399,6 +426,8 @@ def _retype(exp, nodes, x, json_declared=frozenset()):
 
 
 def shrink(case):
+    if case.get("kind") == "termination":
+        return
     nodes = case["nodes"]
     for i in range(len(nodes)):
         nm = nodes[i][0]
@@ -422,6 +451,8 @@ def _mentions(p, nm):
 
 def none_ref(case, f):
     """a reference (chain) ends in a key whose value is None: a literal None, or a native string that spells none / null"""
+    if "nodes" not in case:
+        return False
     def is_none(p):
         return p is None or (isinstance(p, str) and p.strip().lower() in ("none", "null"))
     return any(k == "lit" and is_none(p) for _, k, p in case["nodes"]) and f["symptom"] in ("unresolved", "value") \
@@ -490,6 +521,15 @@ def run(ctx):
     for nodes in ([Node("x", "lit", [5, 6]), Node("a", "expr", ("+", ("idx", "x", [0]), ("num", 1), " ")), Node("b", "expr", ("*", ("ref", "a"), ("num", 2), " ")), Node("xy", "ref", "a")],
                   [Node("x", "lit", [5, 6]), Node("ab", "ref", "x"), Node("abc", "ref", "ab"), Node("a", "idx", ("abc", [1]))]):
         cases.append((mk_case(rng, nodes, order=list(range(len(nodes))), placement=["root"] * len(nodes)), {"probe", "indexed"}))
+    # unresolvable references whose NAME spells a placeholder (the very id the expression gets on a fresh counter, a
+    # neighbouring id, another kind): must be left as their text, and reading must return
+    for text, expect in (('a  "$EXPRESSION000000 + 1";\n', "$EXPRESSION000000 + 1"), ('k  1;\na  "$EXPRESSION000001 + $k";\n', "$EXPRESSION000001 + 1"),
+                         ('a  $EXPRESSION000000;\n', "$EXPRESSION000000"), ('a  "$STRINGLITERAL000000 + 1";\nb  \'x y\';\n', "x y")):
+        c = {"kind": "termination", "text": text, "expect": expect, "limit": 20}
+        r = oracle(c)
+        if r:
+            ctx.oracle_fail(c, r[0], r[1])
+        ctx.count(("t", text), True, "termination-probe")
     none_probe = mk_case(rng, [Node("a", "lit", None), Node("b", "ref", "a")], order=[0, 1], placement=["root", "root"])
     cases.append((none_probe, {"probe"}))
     for c, feats in cases:
